@@ -1,6 +1,9 @@
 #!/bin/sh
 # every thorough check once, from a snapshot (vp run -- tools/thorough_all.sh): timing + exit status per property
-cd "$(dirname "$0")/.." && ./setup.sh >/dev/null 2>&1
+cd "$(dirname "$0")/.."
+# with `vp run --with-repo` the checks run against the snapshot of /repo, so /repo itself stays free for seeded patches
+if [ -n "${VP_RUN_REPO:-}" ]; then sed -i "s#\"/repo#\"$VP_RUN_REPO#g" harness/Cargo.toml; export VERIF_REPO=$VP_RUN_REPO; fi
+./setup.sh >/dev/null 2>&1
 for p in ${*:-C01 C02 C03 C04 C05 C06 C07 C08 C09 C10 C11 C12 C13 C14 C15 C16 C17}; do
   s=$(date +%s); out=$(./check $p thorough 2>&1); rc=$?; e=$(date +%s)
   echo "$p rc=$rc $((e-s))s $(echo "$out" | grep -E "obligations|BROKEN|Traceback" | tail -1) $(echo "$out" | grep -c '^VIOLATION') violations"
